@@ -252,6 +252,10 @@ func evalToLiteral(text string) string {
 // literal-valued consts, operators, calls of side-effect-free builtins or of constant (non-callable)
 // values, and ternaries with a constant condition (a non-constant branch is rendered as `undefined`:
 // it can only matter if it is the branch taken, and then the optimizer cannot evaluate the expression either).
+// c01calleeConstFirst: constLiterals is not scope aware, so a callee whose name is both a constant somewhere in the script
+// and a pure builtin is read both ways (constExprErrors walks twice and unites what the two readings raise).
+var c01calleeConstFirst bool
+
 func constText(x parser.Expr, consts map[string]string) (string, bool) {
 	switch n := x.(type) {
 	case *parser.IntLit:
@@ -317,10 +321,18 @@ func constText(x parser.Expr, consts map[string]string) (string, bool) {
 		}
 		var fn string
 		if id, ok := n.Func.(*parser.Ident); ok {
-			if !c01pureBuiltins[id.Name] {
+			if v, isConst := consts[id.Name]; isConst && (c01calleeConstFirst || !c01pureBuiltins[id.Name]) {
+				// the callee names a constant of the script (which may shadow a builtin): the call is the constant
+				// expression <literal>(args), which raises NotCallableError when evaluated
+				if v == "\x00ambiguous" {
+					return "", false
+				}
+				fn = "(" + v + ")"
+			} else if c01pureBuiltins[id.Name] {
+				fn = id.Name
+			} else {
 				return "", false
 			}
-			fn = id.Name
 		} else {
 			t, ok := constText(n.Func, consts)
 			if !ok {
@@ -350,6 +362,19 @@ func constExprErrors(src string, cache map[string]string) map[string]bool {
 		return out
 	}
 	consts := constLiterals(src)
+	shadowing := false
+	for name := range consts {
+		if c01pureBuiltins[name] {
+			shadowing = true
+		}
+	}
+	if shadowing && !c01calleeConstFirst {
+		c01calleeConstFirst = true
+		for k := range constExprErrors(src, cache) {
+			out[k] = true
+		}
+		c01calleeConstFirst = false
+	}
 	ref.Walk(f, func(n parser.Node) bool {
 		x, ok := n.(parser.Expr)
 		if !ok {
@@ -645,7 +670,7 @@ func (m c01) Run(c *core.Ctx) {
 	// (1c) const groups with implicit repetition: the expression of the first constant is compiled again for every
 	// following value-less constant (with another iota, and with whatever the names mean at that point - a constant of
 	// the group may re-declare a name the expression uses)
-	for _, expr := range []string{"x + iota", "iota * x", "x << iota", "len(\"ab\") + iota + x", "[x, iota, y][iota % 3]", "x + y + iota", "-x + iota", "iota == 1 ? x : -x", "string(x) + string(iota)", "x"} {
+	for _, expr := range []string{"x + iota", "iota * x", "x << iota", "len(\"ab\") + iota + x", "[x, iota, y][iota % 3]", "x + y + iota", "-x + iota", "iota == 1 ? x : -x", "string(x) + string(iota)", "x", "func() { return x + 10 }() + iota", "[func(k) { return k + x + y }(iota)][0]"} {
 		for _, names := range [][3]string{{"a", "b", "c"}, {"a", "x", "c"}, {"a", "b", "x"}, {"a", "y", "x"}, {"len", "b", "c"}} {
 			for _, outer := range []string{"const x = 1\nconst y = 2.5\n", "const (\n  x = 3\n  y = 4u\n)\n", "x := 1\ny := 2\n"} {
 				for wi, wrap := range []string{"%s%sreturn [%s, %s, %s]\n", "%sf := func() {\n%sreturn [%s, %s, %s]\n}\nreturn f()\n", "%sf := func() {\n  return func() {\n%sreturn [%s, %s, %s]\n  }\n}\nreturn f()()\n"} {
